@@ -85,6 +85,19 @@ def timer(P, R):
         st = [t for t in f.stores() if (t.ev.get('rhs') or {}).get('ev') == s.ev['id'] or ((t.ev.get('rhs') or {}).get('k') == 'callref' and (t.ev.get('rhs') or {}).get('callee') == 'event_new')]
         armed = f.path_avoiding(s, lambda t: rules.is_call(t, 'event_add')) is None
         R.ob('C03.MPT.1', armed, s, 'the timer is armed on every path after its creation', key='timer-armed')
+        # ... with the timeout the configuration holds NOW: the seconds of the interval handed to event_add come from a
+        # configuration node's parsed value read in this function, not from a copy taken at some earlier time
+        for t in f.calls('event_add'):
+            tv = t.ev['args'][1] if len(t.ev['args']) > 1 else None
+            tvv = [x['name'] for x in walk(tv) if x.get('k') == 'var'] if isinstance(tv, dict) else []
+            secs = [u for u in f.stores() if u.ev['k'] == 'store' and u.ev.get('op') == '=' and (u.ev.get('lhs') or {}).get('k') == 'mem' and u.ev['lhs'].get('field') == 'tv_sec'
+                    and is_var(u.ev['lhs'].get('base')) and u.ev['lhs']['base']['name'] in tvv]
+            for u in secs:
+                rhs = u.ev.get('rhs')
+                if is_var(rhs) and rhs.get('sc') == 'local' and f.single_def(rhs['name']):
+                    rhs = f.single_def(rhs['name'])[1]
+                fresh = isinstance(rhs, dict) and any(x.get('k') == 'mem' and x.get('field') in ('parsed', 'p_interval') for x in walk(rhs))
+                R.ob('C03.MPT.1', fresh, u, 'the interval the timer is armed with is read from the configuration node when the client is announced (%s)' % sx(u.ev.get('rhs')), key='timer-interval-fresh')
         if cb is None:
             R.ob('C03.MPT.1', False, s, 'timer callback is not a function of this program', key='timer-callback')
             continue
